@@ -11,6 +11,8 @@ package main
 
 import (
 	"fmt"
+	"os"
+	"path/filepath"
 	"regexp"
 	"strings"
 	"unicode"
@@ -351,6 +353,18 @@ func runC20(cfg *runCfg) error {
 		opts := c20Options(cr)
 		res.Evaluations++
 		md, err := markdown.NewExporter(opts).ExportToString(d, nil)
+		if err == nil && cr.chance(8) {
+			// the file route gives the same Markdown
+			feats["exported through ExportToFile as well"]++
+			docxPath, mdPath := filepath.Join(cfg.out, "c20in.docx"), filepath.Join(cfg.out, "c20out.md")
+			if e := buildWDoc(blocks).Save(docxPath); e == nil {
+				if e2 := markdown.NewExporter(opts).ExportToFile(docxPath, mdPath, nil); e2 != nil {
+					fail(ci, "exports", "export_error", "ExportToFile: "+e2.Error(), nil)
+				} else if b, _ := os.ReadFile(mdPath); string(b) != md {
+					fail(ci, "file_route", "file_route", fmt.Sprintf("document %s: ExportToFile writes %q, ExportToString gives %q", viewString(viewDoc(d)), b, md), nil)
+				}
+			}
+		}
 		if err != nil {
 			fail(ci, "exports", "export_error", err.Error(), nil)
 			continue
